@@ -165,12 +165,16 @@ func main() {
 			pointOf[v] = i + 1
 		}
 	}
+	condRng := rand.New(rand.NewSource(*seed*31 + 7))
 	realCond := func(c cond) bs.NumericCondition {
 		val := func(ix int) int64 { return i64Of[ex.Points[ix-1].N] }
 		nc := bs.NumericCondition{Operator: bs.QueryOperator(c.Op), Value: val(c.X), Min: val(c.Lo), Max: val(c.Hi)}
 		for _, x := range c.Xs {
 			nc.Values = append(nc.Values, val(x))
 		}
+		// a list of values is a set: the condition is an exported struct (and a JSON shape), so the order its values
+		// arrive in is whatever the caller wrote
+		condRng.Shuffle(len(nc.Values), func(i, j int) { nc.Values[i], nc.Values[j] = nc.Values[j], nc.Values[i] })
 		return nc
 	}
 
